@@ -35,26 +35,33 @@ contract(P + "DaughtersDict.charge_conjugate", types={"pdg_name": "bool"},
 META_INV = ["typ(self.metadata, 'dict')", "dhas(self.metadata, 'model') and dhas(self.metadata, 'model_params')",
             "not dhas(self.metadata, 'bf') and not dhas(self.metadata, 'daughters') and not dhas(self.metadata, 'fs') and not dhas(self.metadata, 'self')"]
 
+# the daughters actually used: the `daughters` argument, or the `fs=` keyword when no daughters are given (from_dict's route)
+FS_ROUTE = "(daughters is None and dhas(info, 'fs'))"
+D_PRE = f"(dget(info, 'fs') if {FS_ROUTE} else daughters)"
+D_POST = f"(old(dget(info, 'fs')) if old({FS_ROUTE}) else daughters)"
+KEPT = lambda k: f"(old(dhas(info, {k})) and not ({k} == 'fs' and old(daughters is None)))"
+
 contract(P + "DecayMode.__init__", types={"bf": "any", "daughters": "any", "info": "dict"},
-         requires=["typ(daughters, 'none', 'dict', 'obj:DaughtersDict', 'list', 'tuple')",
-                   "implies(typ(daughters, 'dict', 'obj:DaughtersDict'), forallv(lambda k: implies(dhas(daughters, k), typ(dget(daughters, k), 'int'))))",
-                   # daughters given explicitly (the `fs=` keyword route is covered by from_dict)
-                   "not dhas(info, 'fs')", "not dhas(info, 'bf') and not dhas(info, 'daughters') and not dhas(info, 'self')"],
+         requires=[f"typ({D_PRE}, 'none', 'dict', 'obj:DaughtersDict', 'list', 'tuple')",
+                   f"implies(typ({D_PRE}, 'dict', 'obj:DaughtersDict'), forallv(lambda k: implies(dhas({D_PRE}, k), typ(dget({D_PRE}, k), 'int'))))",
+                   # `fs=` next to explicit daughters would end up in the metadata
+                   "implies(daughters is not None, not dhas(info, 'fs'))",
+                   "not dhas(info, 'bf') and not dhas(info, 'daughters') and not dhas(info, 'self')"],
          ensures=[
              "same(self.bf, bf)",
              "isfresh(self.daughters)",
-             "implies(typ(daughters, 'dict', 'obj:DaughtersDict'), forallv(lambda k: dhas(self.daughters, k) == (dhas(daughters, k) and dget(daughters, k) > 0)))",
-             "implies(typ(daughters, 'dict', 'obj:DaughtersDict'), forallv(lambda k: implies(dhas(self.daughters, k), same(dget(self.daughters, k), dget(daughters, k)))))",
-             "implies(typ(daughters, 'list', 'tuple'), forallv(lambda k: dhas(self.daughters, k) == (count_of(daughters, k) >= 1)))",
-             "implies(typ(daughters, 'list', 'tuple'), forallv(lambda k: implies(dhas(self.daughters, k), dget(self.daughters, k) == count_of(daughters, k))))",
-             # every keyword becomes metadata; model / model_params default to ''
+             f"implies(typ({D_POST}, 'dict', 'obj:DaughtersDict'), forallv(lambda k: dhas(self.daughters, k) == (dhas({D_POST}, k) and dget({D_POST}, k) > 0)))",
+             f"implies(typ({D_POST}, 'dict', 'obj:DaughtersDict'), forallv(lambda k: implies(dhas(self.daughters, k), same(dget(self.daughters, k), dget({D_POST}, k)))))",
+             f"implies(typ({D_POST}, 'list', 'tuple'), forallv(lambda k: dhas(self.daughters, k) == (count_of({D_POST}, k) >= 1)))",
+             f"implies(typ({D_POST}, 'list', 'tuple'), forallv(lambda k: implies(dhas(self.daughters, k), dget(self.daughters, k) == count_of({D_POST}, k))))",
+             # every (other) keyword becomes metadata; model / model_params default to ''
              "isfresh(self.metadata)",
-             "forallv(lambda k: dhas(self.metadata, k) == (k == 'model' or k == 'model_params' or dhas(info, k)))",
-             "forallv(lambda k: implies(dhas(info, k), same(dget(self.metadata, k), dget(info, k))))",
-             "implies(not dhas(info, 'model'), dget(self.metadata, 'model') == '')",
-             "implies(not dhas(info, 'model_params'), dget(self.metadata, 'model_params') == '')",
+             f"forallv(lambda k: dhas(self.metadata, k) == (k == 'model' or k == 'model_params' or {KEPT('k')}))",
+             f"forallv(lambda k: implies({KEPT('k')}, same(dget(self.metadata, k), old(dget(info, k)))))",
+             "implies(not old(dhas(info, 'model')), dget(self.metadata, 'model') == '')",
+             "implies(not old(dhas(info, 'model_params')), dget(self.metadata, 'model_params') == '')",
          ] + META_INV,
-         modifies=["self"], modifies_fields=["bf", "daughters", "metadata"], returns="none", properties=["C11", "C04"])
+         modifies=["self", "info"], modifies_fields=["bf", "daughters", "metadata"], returns="none", properties=["C11", "C04"])
 
 contract(P + "DecayMode.charge_conjugate", types={"pdg_name": "bool"},
          requires=META_INV + ["is_final_state(self.daughters)",
@@ -68,3 +75,37 @@ contract(P + "DecayMode.charge_conjugate", types={"pdg_name": "bool"},
              "forallv(lambda k: implies(dhas(self.metadata, k), same(dget(result.metadata, k), dget(self.metadata, k))))",
          ],
          returns="obj:DecayMode", properties=["C04"])
+
+
+# ---- C11: dictionary form ---------------------------------------------------------------------------------------------
+contract(P + "DaughtersDict.to_list", requires=["is_final_state(self)"],
+         ensures=["typ(result, 'list') and isfresh(result)",
+                  # every name as often as its multiplicity, nothing else ...
+                  "forallv(lambda k: count_of(result, k) == cnt(self, k))",
+                  # ... in one canonical (sorted) order
+                  "forall(lambda a, b: implies(0 <= a < b < llen(result), str_le(lget(result, a), lget(result, b))))",
+                  "forall(lambda a: implies(0 <= a < llen(result), typ(lget(result, a), 'str')))"],
+         returns="list", properties=["C11"])
+
+contract(P + "DecayMode.to_dict",
+         requires=META_INV + ["is_final_state(self.daughters)"],
+         ensures=["typ(result, 'dict') and isfresh(result)",
+                  "dhas(result, 'bf') and same(dget(result, 'bf'), self.bf)",
+                  # the daughters as the canonical list of names with multiplicities
+                  "dhas(result, 'fs') and typ(dget(result, 'fs'), 'list') and isfresh(dget(result, 'fs'))",
+                  "forallv(lambda k: count_of(dget(result, 'fs'), k) == cnt(self.daughters, k))",
+                  "forall(lambda a, b: implies(0 <= a < b < llen(dget(result, 'fs')), str_le(lget(dget(result, 'fs'), a), lget(dget(result, 'fs'), b))))",
+                  # every piece of metadata (model information and user keys) under its own key, nothing else
+                  "forallv(lambda k: dhas(result, k) == (k == 'bf' or k == 'fs' or dhas(self.metadata, k)))",
+                  "forallv(lambda k: implies(dhas(self.metadata, k) and k != 'model_params', same(dget(result, k), dget(self.metadata, k))))",
+                  "implies(dget(self.metadata, 'model_params') is None, dget(result, 'model_params') == '')",
+                  "implies(dget(self.metadata, 'model_params') is not None, same(dget(result, 'model_params'), dget(self.metadata, 'model_params')))"],
+         returns="dict", properties=["C11"])
+
+contract(P + "_get_modes", types={"decay_chain": "dict"}, requires=[],
+         ensures=["same(result, value_at(decay_chain, 0))"],
+         raises={"AssertionError": "dlen(decay_chain) != 1"}, properties=["C11"])
+
+contract(P + "_get_fs", types={"decay": "dict"}, requires=["dhas(decay, 'fs')"],
+         ensures=["same(result, dget(decay, 'fs'))", "typ(result, 'list')"],
+         raises={"TypeError": "not typ(dget(decay, 'fs'), 'list')"}, properties=["C11"])
